@@ -1,0 +1,72 @@
+//go:build verif
+
+// Copyright (C) 2026  mieru authors
+//
+// This program is free software: you can redistribute it and/or modify
+// it under the terms of the GNU General Public License as published by
+// the Free Software Foundation, either version 3 of the License, or
+// (at your option) any later version.
+//
+// This program is distributed in the hope that it will be useful,
+// but WITHOUT ANY WARRANTY; without even the implied warranty of
+// MERCHANTABILITY or FITNESS FOR A PARTICULAR PURPOSE.  See the
+// GNU General Public License for more details.
+//
+// You should have received a copy of the GNU General Public License
+// along with this program.  If not, see <https://www.gnu.org/licenses/>.
+
+package protocol
+
+import (
+	"github.com/enfein/mieru/v3/pkg/appctl/appctlpb"
+	"github.com/enfein/mieru/v3/pkg/common"
+)
+
+// Verification hooks (build tag "verif"): export the low entropy codec and
+// the fragment size computation.
+
+// VerifLEEncode encodes src with an explicit padding bit.
+func VerifLEEncode(src []byte, mode uint8, halfMask uint32, rotation uint8, paddingBit uint8) ([]byte, error) {
+	return encodeLowEntropyPayloadWithPaddingBit(src, appctlpb.LowEntropyMode(mode), halfMask, appctlpb.LowEntropyMaskRotation(rotation), paddingBit)
+}
+
+// VerifLEEncodeProduction encodes src with the host's padding bit.
+func VerifLEEncodeProduction(src []byte, mode uint8, halfMask uint32, rotation uint8) ([]byte, error) {
+	return encodeLowEntropyPayload(src, appctlpb.LowEntropyMode(mode), halfMask, appctlpb.LowEntropyMaskRotation(rotation))
+}
+
+// VerifLEDecode decodes an encoded body.
+func VerifLEDecode(encoded []byte, extractedLen int, mode uint8, halfMask uint32, rotation uint8) ([]byte, error) {
+	return decodeLowEntropyPayload(encoded, extractedLen, appctlpb.LowEntropyMode(mode), halfMask, appctlpb.LowEntropyMaskRotation(rotation))
+}
+
+// VerifLEDecodeWire runs the receiver path: metadata validation followed by
+// decoding of body||tag as it appears on the wire.
+func VerifLEDecodeWire(wirePayload []byte, protocol uint8, mode uint8, payloadLen uint16, halfMask uint32, extractedLen uint16, rotation uint8) ([]byte, error) {
+	das := &dataAckStruct{
+		baseStruct:             baseStruct{protocol: protocol},
+		lowEntropyMode:         mode,
+		payloadLen:             payloadLen,
+		lowEntropyMask:         halfMask,
+		extractedPayloadLen:    extractedLen,
+		lowEntropyMaskRotation: rotation,
+	}
+	return decodeLowEntropyEncryptedPayload(wirePayload, das)
+}
+
+// VerifLEPaddingBit returns the padding bit used by this host.
+func VerifLEPaddingBit() uint8 { return lowEntropyPaddingBit }
+
+// VerifNewLEHalfMask draws a half mask the way the sender does.
+func VerifNewLEHalfMask(mode uint8) (uint32, error) {
+	return newLowEntropyHalfMask(appctlpb.LowEntropyMode(mode))
+}
+
+// VerifMaxFragmentSize returns the maximum plaintext fragment size.
+func VerifMaxFragmentSize(mtu int, packet bool, mode uint8) (int, error) {
+	transport := common.StreamTransport
+	if packet {
+		transport = common.PacketTransport
+	}
+	return maxFragmentSize(mtu, transport, appctlpb.LowEntropyMode(mode))
+}
